@@ -75,6 +75,12 @@ Tie / search (DESIGN.md §4.2, §5 C06):
        while body, match arm, if-let branch, bound to var, var parameter, 3-part for); range iterators, range /
        slice bound names, array dimension names, string characters, call results, tuple elements, function names.
        The const variant must be rejected with `cannot assign ...` on its lines, the var twin must compile.
+       Measured rules of the language, pinned as accepted controls (not offences): the fields of a record are
+       assignable whatever the record's binding is (`let r = R(1); r.x = 5`, also fields reached through a
+       let array element or a for-in iterator), and a match / if-let binder writes through to the field.
+       Known findings of the pinned tree (known_findings.jsonl, one key_regex): iterators of list comprehensions
+       and of for-in over a slice, array values derived by slice / ?: / if / match / if-let, and the bound names of
+       range / slice parameters are not const.
    (f) wrong number / kinds of arguments through every call syntax (gen_call_family): too few / wrong kind at
        first, middle, last position, surplus of the same / another kind / in front / two, x call `f(..)`, pipe with a
        scalar left side, pipe with a tuple of 1-4 components (literal or let-bound) x callee (named function,
